@@ -11,6 +11,7 @@
        gmp_snprintf_Q size s<fmt> [star...] num den   -> ... (glibc column only when den == 1)
        gmp_snprintf_N size s<fmt> [star...] nsize [limbs]
        gmp_snprintf_M size s<fmt> [star...] limb
+       gmp_snprintf_F size s<fmt> [star...] precbits exp nsize [limbs]   -> ret sBYTES   (no glibc column)
    General form (types: one letter per argument, see build_args):
        gmp_snprintf / gmp_vsnprintf size s<fmt> s<types> args...    -> ret sBYTES stores...
        gmp_sprintf gmp_vsprintf gmp_asprintf gmp_vasprintf gmp_fprintf gmp_vfprintf gmp_printf gmp_vprintf
@@ -71,7 +72,7 @@ static int fits_long(const tok_t *t) {
 /* types, one letter per argument (tokens consumed):
      i  integer scalar: int, long, size_t, char ...  (num)          s  string (str)
      Z  mpz_t (num)     Q  mpq_t (num den, not canonicalised)       M  mp_limb_t (num)
-     N  limb array + size (vec, num)
+     N  limb array + size (vec, num)                                F  mpf_t (precbits exp size vec)
      n  int-like cell for %n (no token; printed after the call)     z  mpz_t target   q  mpq_t target
      b  char buffer target of 64 bytes (scanf %s / %c)                                             */
 static int build_args(pa_t *pa, const char *types, int argc, tok_t *a) {
@@ -90,6 +91,14 @@ static int build_args(pa_t *pa, const char *types, int argc, tok_t *a) {
       pa->s[pa->ns++] = (long)pa->q[pa->nq++]; break;
     case 'N': if (k + 1 >= argc || a[k].kind != T_VEC || a[k + 1].kind != T_NUM || pa->nv >= 4 || pa->ns + 2 > NS) return -1;
       pa->v[pa->nv] = vec_copy(&a[k], 2); pa->s[pa->ns++] = (long)pa->v[pa->nv++]; pa->s[pa->ns++] = num_slot(&a[k + 1]); k += 2; break;
+    case 'F': {                                   /* mpf_t: precision in bits, exponent, signed size, limbs */
+      if (k + 3 >= argc || a[k].kind != T_NUM || a[k + 1].kind != T_NUM || a[k + 2].kind != T_NUM || a[k + 3].kind != T_VEC || pa->nf >= 2) return -1;
+      mpf_init2(pa->f[pa->nf], tok_ulong(&a[k])); mpf_ptr f = pa->f[pa->nf];
+      long sz = tok_long(&a[k + 2]), n = sz < 0 ? -sz : sz;
+      if (n != a[k + 3].n || n > f->_mp_prec + 1 || (n > 0 && a[k + 3].d[n - 1] == 0)) { mpf_clear(f); return -1; }
+      for (long i = 0; i < n; i++) f->_mp_d[i] = a[k + 3].d[i];
+      f->_mp_size = (int)sz; f->_mp_exp = n ? tok_long(&a[k + 1]) : 0;
+      pa->s[pa->ns++] = (long)f; pa->nf++; k += 4; break; }
     case 'n': if (pa->ncell >= 6) return -1; pa->cell[pa->ncell] = 0; pa->s[pa->ns++] = (long)&pa->cell[pa->ncell];
       pa->kind[pa->nstore] = 'n'; pa->ptr[pa->nstore++] = &pa->cell[pa->ncell++]; break;
     case 'l': if (pa->ncell >= 6) return -1; pa->cell[pa->ncell] = SENTINEL; pa->s[pa->ns++] = (long)&pa->cell[pa->ncell];
@@ -116,6 +125,7 @@ static void out_stores(pa_t *pa, out_t *o) {
 static void free_args(pa_t *pa) {
   for (int i = 0; i < pa->nz; i++) mpz_clear(pa->z[i]);
   for (int i = 0; i < pa->nq; i++) mpq_clear(pa->q[i]);
+  for (int i = 0; i < pa->nf; i++) mpf_clear(pa->f[i]);
   for (int i = 0; i < pa->nv; i++) free(pa->v[i]);
   for (int i = 0; i < pa->nsbuf; i++) free(pa->sbuf[i]);
 }
@@ -244,6 +254,16 @@ static int one_conv(int ty, int argc, tok_t *a, out_t *o) {
   }
   cb_free(buf); free_args(&pa); return 0;
 }
+/* gmp_snprintf_F size s<fmt> [star...] precbits exp nsize [limbs] : the general op with types "i..F" */
+static int op_sn_F(int argc, tok_t *a, out_t *o) {
+  NEED(argc >= 6 && argc <= 8 && a[1].kind == T_STR);
+  int ns = count_stars((char *)a[1].s); NEED(ns == argc - 6);
+  unsigned char ty[8]; int i = 0; for (; i < ns; i++) ty[i] = 'i';
+  ty[i++] = 'F'; ty[i] = 0;
+  tok_t b[12]; b[0] = a[0]; b[1] = a[1]; memset(&b[2], 0, sizeof b[2]); b[2].kind = T_STR; b[2].s = ty; b[2].slen = i;
+  for (int j = 2; j < argc; j++) b[j + 1] = a[j];
+  return gen_fam(K_SN, 1, argc + 1, b, o);
+}
 static int op_sn_Z(int c, tok_t *a, out_t *o) { return one_conv('Z', c, a, o); }
 static int op_sn_Q(int c, tok_t *a, out_t *o) { return one_conv('Q', c, a, o); }
 static int op_sn_N(int c, tok_t *a, out_t *o) { return one_conv('N', c, a, o); }
@@ -314,7 +334,7 @@ static int op_ps_Q(int c, tok_t *a, out_t *o) { return print_scan(1, c, a, o); }
 
 const opdef_t ops_printf[] = {
   {"gmp_print_scan_Z", op_ps_Z}, {"gmp_print_scan_Q", op_ps_Q},
-  {"gmp_snprintf_Z", op_sn_Z}, {"gmp_snprintf_Q", op_sn_Q}, {"gmp_snprintf_N", op_sn_N}, {"gmp_snprintf_M", op_sn_M},
+  {"gmp_snprintf_Z", op_sn_Z}, {"gmp_snprintf_Q", op_sn_Q}, {"gmp_snprintf_N", op_sn_N}, {"gmp_snprintf_M", op_sn_M}, {"gmp_snprintf_F", op_sn_F},
   {"gmp_snprintf", op_snprintf}, {"gmp_snprintf_mixed", op_snprintf}, {"gmp_vsnprintf", op_vsnprintf},
   {"gmp_sprintf", op_sprintf}, {"gmp_vsprintf", op_vsprintf}, {"gmp_asprintf", op_asprintf}, {"gmp_vasprintf", op_vasprintf},
   {"gmp_fprintf", op_fprintf}, {"gmp_vfprintf", op_vfprintf}, {"gmp_printf", op_printf}, {"gmp_vprintf", op_vprintf},
